@@ -263,6 +263,7 @@ var c17Stmts = []c17Stmt{
 	{"MV", "movement MV {\n\tsa1\n\tsa2 * 2\n}\n", regexp.MustCompile(`^MV$`), true},
 	{"MT", "mart MT {\n\tITEM_1\n\tITEM_2\n}\n", regexp.MustCompile(`^MT$`), true},
 	{"MAP", "mapscripts MAP {\n\tT1: SA\n\tT2 {\n\t\tmsgbox(\"text of MAP\")\n\t\tif (flag(M1)) {\n\t\t\tz\n\t\t}\n\t}\n\tT3 [\n\t\tVAR_1, 0: SB\n\t\tVAR_1, 1 {\n\t\t\tmsgbox(\"shared text\")\n\t\t}\n\t]\n}\n", regexp.MustCompile(`^(MAP|MAP_T\d+(_\d+)*)$`), false},
+	{"SC", "script SC {\n\tbraillemessage(braille\"shared text\")\n\tmsgbox(custom\"text of SA$\")\n\tmsgbox(\"text of SC\")\n}\n", regexp.MustCompile(`^(SC|SC_\d+)$`), false},
 	{"RAW", "raw `\nRawLabel:\n\t.byte 1\n`\n", nil, true},
 	{"CONST", "const UNUSED_K = 77\n", nil, true},
 }
@@ -298,7 +299,20 @@ func c17Section(out string, st c17Stmt) string {
 	for len(sec) > 0 && (sec[len(sec)-1] == "" || sec[len(sec)-1] == "\t.align 2") {
 		sec = sec[:len(sec)-1]
 	}
-	return hoistedRe.ReplaceAllString(strings.Join(sec, "\n"), "<hoisted>")
+	// A hoisted label is replaced by the data it denotes: numbering and sharing are free, the content is not.
+	return hoistedRe.ReplaceAllStringFunc(strings.Join(sec, "\n"), func(label string) string {
+		blk, ok := blockAfter(out, label)
+		if !ok || len(blk) < 2 {
+			return "<hoisted: undefined>"
+		}
+		var data []string
+		for _, l := range blk[1:] {
+			if !strings.HasPrefix(l, "# ") {
+				data = append(data, strings.TrimSpace(l))
+			}
+		}
+		return "<hoisted: " + strings.Join(data, " | ") + ">"
+	})
 }
 
 func c17Context(r *harness.Run, tier string) {
@@ -561,7 +575,7 @@ func runC17(tier string) int {
 	_ = reflect.DeepEqual
 	r.Assume("the only sources of nondeterminism of the compiler are Go's map iteration order and process history (no goroutines, clocks or randomness): every range-over-map of the non-test code is found by go/types and routed through the scheduler; loops that modify the ranged map would be reported as uncontrolled",
 		"'fresh process' baselines are computed by subprocesses that run exactly one compilation",
-		"context independence compares a statement's emitted section modulo the names of hoisted text / movement labels")
+		"context independence compares a statement's emitted section with every hoisted text / movement label replaced by the data it denotes (numbering and sharing are free, content is not)")
 	return r.Finish(r.Get("evaluations"), r.Get("nontrivial"),
 		"(1) schedules: for every corpus input (many-chunk scripts, label clashes, unknown-font errors against 2- and 3-font configs, all small 'general' programs, optimize on/off) every execution with <= d deviating map-iteration choice points (all n! orders for n <= 4, else reverse, rotations, adjacent transpositions), each run twice; (2) histories: every sequence of <= k compilations over 9 inputs x optimize x 2 font files x default font id {config default, -f} x default line length {config, -l} x 2 switch assignments x 2 command configs sharing the maps, each result compared with the same compilation as first action of a fresh process; (3) every top-level statement of a 6-statement family among every ordered selection of <= m other statements at every position; states/transitions = executions; non-trivial = a deviating schedule, a history of length >= 2 or a context with a neighbour")
 }
